@@ -389,7 +389,11 @@ type libResult struct {
 	status string // ok | hung | error:<..>
 }
 
-var c06Patience = 40 * time.Second
+var c06Patience = 60 * time.Second
+
+// runs that did not terminate, per mode: after a few of them the remaining runs of that mode are skipped
+// (each costs the whole patience; the violation is already recorded)
+var c06Hung = map[string]*int64{"mem": new(int64), "disk": new(int64)}
 
 // runLib drives obichunk.IUniqueSequence with the records in the order cfg.Perm.
 func runLib(recs []urec, opt []int, keys []string, cfg *c06Cfg) libResult {
@@ -585,7 +589,7 @@ func runBin(bin string, args []string, dir string) binResult {
 				r.rc = ee.ExitCode()
 			}
 		}
-	case <-time.After(120 * time.Second):
+	case <-time.After(300 * time.Second):
 		cmd.Process.Kill()
 		r.hung = true
 		r.rc = -3
@@ -810,7 +814,18 @@ func runOne(env *Env, c *c06Case, cfg *c06Cfg, bindir, scratch string) int {
 	}
 	switch cfg.Level {
 	case "lib":
+		if h := c06Hung[cfg.Mode]; h != nil && atomic.LoadInt64(h) >= 3 {
+			env.mu.Lock()
+			env.classes["lib/skipped-after-hangs"]++
+			env.mu.Unlock()
+			return 0
+		}
 		r := runLib(recs, c.Opt, c.Keys, cfg)
+		if r.status == "hung" {
+			if h := c06Hung[cfg.Mode]; h != nil {
+				atomic.AddInt64(h, 1)
+			}
+		}
 		if r.status != "ok" {
 			env.fail("C06.lib."+strings.SplitN(r.status, ":", 2)[0], cls, fmt.Sprintf("IUniqueSequence %s (fatal messages: %v)", r.status, fatalMessages()), cc)
 			return 1
@@ -1049,6 +1064,7 @@ type c06Event struct {
 	Out     [][]any  `json:"out"`
 	Ref     [][]any  `json:"ref"`
 	Seed    int64    `json:"seed"`
+	Dist    int      `json:"distbatch"` // batch size of iterator.Distribute (process-wide option) during the run
 }
 
 func randomDataset(rng *rand.Rand, n int) []urec {
@@ -1113,6 +1129,10 @@ func recordC06(env *Env) {
 	for i := 0; i < env.n; i++ {
 		jobs = append(jobs, job{env.seed*7919 + int64(i), i < nbin && bindir != ""})
 	}
+	if js := env.opt("jobseed", ""); js != "" { // --replay of one recorded event: the same data set and configuration again
+		v, _ := strconv.ParseInt(js, 10, 64)
+		jobs = []job{{v, env.opt("jobbin", "") == "1" && bindir != ""}}
+	}
 	parallel(len(jobs), env.optInt("par", 8), func(i int) {
 		rng := rand.New(rand.NewSource(jobs[i].seed))
 		n := size/2 + rng.Intn(size)
@@ -1129,7 +1149,7 @@ func recordC06(env *Env) {
 			Explicit1: rng.Intn(2) == 0, Variant: rng.Intn(50), NAValue: []string{"", "", "none"}[rng.Intn(3)]}
 		dec := newDecoder(recs, c06TraceKeys, cfg)
 		ev := c06Event{Op: "uniq", Level: "lib", Mode: cfg.Mode, Workers: cfg.Workers, Chunks: cfg.Chunks, Batch: cfg.Batch, Ncat: opt[0],
-			Merge: opt[1], Ns: opt[2], Keys: c06TraceKeys, Recs: encodeRecs(recs), Out: [][]any{}, Ref: [][]any{}, Seed: jobs[i].seed}
+			Merge: opt[1], Ns: opt[2], Keys: c06TraceKeys, Recs: encodeRecs(recs), Out: [][]any{}, Ref: [][]any{}, Seed: jobs[i].seed, Dist: obioptions.CLIBatchSize()}
 		fill := func(e *c06Event, os []orec, ncat int, merge bool) {
 			for _, o := range os {
 				t, b := dec.abstract(o, ncat, merge)
@@ -1184,7 +1204,7 @@ func recordC06(env *Env) {
 		}
 		d := runBin(filepath.Join(bindir, "obidemerge"), []string{"-d", "k", "--no-progressbar", "--max-cpu", strconv.Itoa(cfg.Workers), u1}, dir)
 		ed := c06Event{Op: "demerge", Level: "bin", Mode: "-", Workers: cfg.Workers, Ncat: opt[0], Merge: 1, Keys: c06TraceKeys,
-			Recs: ev.Out, Out: [][]any{}, Ref: [][]any{}, Rc: d.rc, Seed: jobs[i].seed}
+			Recs: ev.Out, Out: [][]any{}, Ref: [][]any{}, Rc: d.rc, Seed: jobs[i].seed, Dist: ev.Dist}
 		if d.hung {
 			ed.Hung = 1
 		}
@@ -1214,7 +1234,7 @@ func recordC06(env *Env) {
 		os.WriteFile(df, b2.Bytes(), 0644)
 		r3 := runBin(filepath.Join(bindir, "obiuniq"), uniqArgs(opt, cfg, false, df), dir)
 		el := c06Event{Op: "law", Level: "bin", Mode: cfg.Mode, Workers: cfg.Workers, Chunks: cfg.Chunks, Batch: cfg.Batch, Ncat: opt[0], Merge: 1, Ns: 0,
-			Keys: c06TraceKeys, Recs: drecs, Out: [][]any{}, Ref: ev.Out, Rc: r3.rc, Seed: jobs[i].seed}
+			Keys: c06TraceKeys, Recs: drecs, Out: [][]any{}, Ref: ev.Out, Rc: r3.rc, Seed: jobs[i].seed, Dist: ev.Dist}
 		if r3.hung {
 			el.Hung = 1
 		}
